@@ -4,6 +4,7 @@ def b_DynamicObstacle_create_signal_series_node : CR.SrcW.Builder where
   kind := .node
   tag := "signalSeries"
   xsd := "dynamicObstacle/signalSeries"
+  path := []
   parent := ""
   attrs := []
   gattrs := []
@@ -17,7 +18,8 @@ def b_DynamicObstacle_create_signal_series_node_signalState : CR.SrcW.Builder wh
   key := "DynamicObstacleXMLNode._create_signal_series_node/signalState"
   kind := .node
   tag := "signalState"
-  xsd := ""
+  xsd := "dynamicObstacle/signalSeries"
+  path := ["signalState"]
   parent := "DynamicObstacleXMLNode._create_signal_series_node"
   attrs := []
   gattrs := []
